@@ -103,6 +103,12 @@ def rule_table(ctx):
     run.floor(R, 18)
 
 
+def _order_free_first(text, p):
+    """the fall-back choice 'else first' must not depend on the order of the input dictionary: lexically first key
+    (sorted / min); `next(iter(hash_dict))` is the insertion-order first and gives two ids for one file"""
+    return ("sorted(%s" % p) in text or ("min(%s" % p) in text
+
+
 def rule_constants(ctx):
     run = ctx.run
     prog = ctx.prog
@@ -150,7 +156,7 @@ def rule_constants(ctx):
                 order = list(seq)
                 ok_shape = True
         rest = " ; ".join(norm(s_) for s_ in fi.node.body if not isinstance(s_, ast.For))
-        else_first = "next(iter(%s), None)" % p in rest
+        else_first = _order_free_first(rest, p)
         if not ok_shape and input_order is None:
             raise AnalysisError("_choose_one_hash: neither the if-chain nor a loop over a constant preference list was recognised")
     while cur is not None:
@@ -169,7 +175,7 @@ def rule_constants(ctx):
             cur = cur.orelse[0]
         else:
             etxt = " ; ".join(norm(s) for s in cur.orelse)
-            else_first = "next(iter(%s), None)" % p in etxt
+            else_first = _order_free_first(etxt, p)
             cur = None
     if input_order is not None:
         run.violation(R, key(m.relpath, fi.qualname, "hash-priority"),
@@ -212,12 +218,29 @@ def rule_wiring(ctx):
         dom = g.dominators()
         ok = sup[0] in dom[gen[0]]
         gc = [(norm(t), pol) for t, pol, _ in guard_chain(gen[0].ast)]
-        ok = ok and gc in ([("'id' not in kwargs", True)], [('"id" not in kwargs', True)])
+        # "no id was given" follows the constructor's own convention: a keyword passed as None is NOT given (it is dropped by
+        # the base constructor, which then falls back to a random UUIDv4) -- a bare membership test takes id=None for an id
+        kw = init.kwarg or "kwargs"
+        accepted = ("%s.get('id') is None" % kw, "not %s.get('id')" % kw, "%s.get('id') in (None, [])" % kw, "%s.get('id') == None" % kw)
+        ok = ok and len(gc) == 1 and gc[0][1] and gc[0][0] in accepted
     run.check(ok, R, key(rel, init.qualname, "generate-under-no-id"),
-              "the deterministic id is not generated exactly when no id was given, after the base constructor", file=rel,
+              "the deterministic id is not generated exactly when no id was given (None counts as not given, as everywhere in the "
+              "constructor), after the base constructor: File(name='x', id=None) -- or parsed content with \"id\": null -- gets a "
+              "random UUIDv4 although contributing properties are present", file=rel,
               line=init.node.lineno, function=init.qualname,
-              expected="super().__init__(**kwargs); if 'id' not in kwargs: id_ = self._generate_id()",
+              expected="super().__init__(**kwargs); if kwargs.get('id') is None: id_ = self._generate_id()",
               found=short(init.node, 200))
+    # every JSON array form is made serialisable element by element: a tuple is written as an array by the encoder, so it must
+    # be hashed as one (falling into the "other value -> its JSON text as a string" branch hashes "[1, 2]" instead of [1,2])
+    mj = prog.func("stix2.base::_make_json_serializable")
+    seq_tests = [t for n_ in body_walk(mj.node) if isinstance(n_, ast.If) for t in [n_.test]
+                 if isinstance(t, ast.Call) and call_simple_name(t) == "isinstance" and len(t.args) == 2 and "list" in norm(t.args[1])]
+    okt = bool(seq_tests) and all("tuple" in norm(t.args[1]) for t in seq_tests)
+    run.check(okt, R, key(mj.module.relpath, mj.qualname, "tuples-are-arrays"),
+              "a tuple inside a contributing value is not treated as a JSON array when the id is computed (it is when the object "
+              "is serialised): the id is not the UUIDv5 of the canonical form of what is written, and changes on a round trip",
+              file=mj.module.relpath, line=mj.node.lineno, function=mj.qualname, expected="isinstance(value, (list, tuple))",
+              found=[short(t) for t in seq_tests])
     # stored when not None
     stores = [n for n in body_walk(init.node) if isinstance(n, ast.Assign) and norm(n.targets[0]) in ("self._inner['id']", 'self._inner["id"]')]
     oks = len(stores) == 1 and any(pol and norm(t).endswith("is not None") for t, pol, _ in guard_chain(stores[0]))
